@@ -136,14 +136,20 @@ def family_pair_executions(a, b, every=1, offset=0):
 
 
 def burst_executions(emu, every=1, offset=0):
-    """A dense burst (12 notes of three programs at one instant: close to 500 register writes on one chip before any
-    audio is rendered) on a FRESH chip object, while another instance creates / plays / closes around it: what the
+    """Dense bursts on a FRESH chip object (6 notes, then `extra` off/on pairs at the same instant: a few hundred to
+    about 700 register writes on one chip before any audio is rendered; the sizes step through the capacity of the
+    cores' write queues), after another instance has created, played and closed a chip of the same core: what the
     cores keep in write queues must not let heap left behind by anybody reach the chip."""
-    ha = [create(emu, 44100, 1)] + [on(40 + 3 * i, i % 3) for i in range(12)] + [gen(600), gen(600)]
     hb = [create(emu, 44100, 1), on(64, 1), gen(300), {"e": "Close"}]
-    for q, il in enumerate(interleavings([ha, hb])):
-        if q % every == offset % every:
-            yield [init(2)] + il
+    for q, extra in enumerate(range(4, 64, 3)):
+        if q % every != offset % every:
+            continue
+        ha = [create(emu, 44100, 1)] + [on(40 + 3 * i, i % 3) for i in range(6)]
+        for r in range(extra):
+            k = 40 + 3 * (r % 6)
+            ha += [{"e": "Off", "k": k}, on(k, (r + r // 6) % 3)]
+        ha += [gen(600), gen(600)]
+        yield [init(2)] + [tag(1, c) for c in hb] + [tag(0, c) for c in ha]
 
 
 def port_pair_executions(a, b, every=1, offset=0):
@@ -174,7 +180,7 @@ def exhaustive_executions(quick, seed):
     for (a, b) in [(0, 0), (0, 2), (4, 5)]:
         hs += list(port_pair_executions(a, b, 1 if not quick else 3, seed + b))
     for e in EMUS:
-        hs += list(burst_executions(e, 60 if not quick else 400, seed + e))
+        hs += list(burst_executions(e, 1 if not quick else 2, seed + e))
     trip = [(1, 8, 4), (8, 4, 1), (4, 1, 8), (0, 2, 5), (3, 6, 2), (2, 5, 0)]
     for (a, b, c) in trip:
         hs += list(triple_executions(a, b, c, 40 if not quick else 240, seed + a))
